@@ -75,9 +75,18 @@ LargeMessages ==
 TripleLattice ==
     UNION {{SentCase(c, sv, "triple-lattice", F) : sv \in ThreeAtATime(CommandTable[c].schema, F, TRUE)} : c \in {1, 2, 6, 10, 12}}
 
-\* the words of the source's dictionary in every text member (also one level down), in company
+\* the words of the source's dictionary and the texts some standard parser / classifier treats
+\* specially, in every text member (also one level down), alone and in company
 DictCases ==
     UNION {{SentCase(c, sv, "dictionary", F) : sv \in DictLattice(CommandTable[c].schema, F, TRUE)} : c \in {1, 2, 6, 10, 12}}
+\* a sub-command is a mode switch: every other member over its lattice once per sub-command
+ModeCases ==
+    UNION {{SentCase(c, sv, "per-mode", F) : sv \in PerMode(CommandTable[c].schema, F, TRUE)} : c \in {6, 10}}
+MC_CasesDict == DictCases \cup ModeCases
+MC_CasesDictDeep ==
+    MC_CasesDict
+    \cup UNION {{SentCase(c, sv, "dictionary", F) : sv \in DictLatticeDeep(CommandTable[c].schema, F, TRUE)} : c \in {1, 2, 6, 10, 12}}
+    \cup UNION {{SentCase(c, sv, "per-mode", F) : sv \in PerModeDeep(CommandTable[c].schema, F, TRUE)} : c \in {6, 10}}
 
-MC_Cases == DictCases \cup TripleLattice \cup LargeMessages \cup TopSubsets \cup NestedSubsets \cup FullRequests \cup SubCommands \cup ParamOrders \cup ValueLattice \cup PairLattice \cup PositionCases
+MC_Cases == TripleLattice \cup LargeMessages \cup TopSubsets \cup NestedSubsets \cup FullRequests \cup SubCommands \cup ParamOrders \cup ValueLattice \cup PairLattice \cup PositionCases
 =============================================================================
